@@ -213,6 +213,7 @@ func Verif_C03_alloc_step() { vfAllocStep(false) }
 // Drain: from a state with exactly m <= 3 free frames (positions arbitrary),
 // AllocFrame succeeds exactly m times with pairwise distinct frames, then reports
 // out-of-memory; the reported totals agree after every call.
+//
 //verif:split 6
 //verif:tier thorough
 func Verif_C03_drain() {
@@ -248,6 +249,7 @@ func Verif_C03_free_step() { vfFreeStep(false) }
 // Lock discipline: every access to allocator state happens while alloc.mutex is
 // held, the lock is taken exactly when free (the sequential spinlock intrinsic
 // reports a second Acquire as blocking forever) and is free again on return.
+//
 //verif:split 6
 func Verif_C09_alloc_lock_discipline() { vfAllocStep(true) }
 
